@@ -122,7 +122,7 @@ func TestCheck(t *testing.T) {
 	ev = drv.NewEvidence("C07", "exploration", rule)
 	nProg, nShapes, nProbes := 12, 4, 200
 	if drv.Thorough() {
-		nProg, nShapes, nProbes = 200, 5, 300
+		nProg, nShapes, nProbes = 100, 5, 300
 	}
 	progs := make([]program, nProg)
 	for i := range progs {
